@@ -236,8 +236,178 @@ let check_derivation (x : qobs) input (e : expr) =
   chk "[{" (count_tok TLSquare + count_tok TLCurly) (opn Range);
   chk "]}" (count_tok TRSquare + count_tok TRCurly) (opn Range);
   if count_tok TLParen <> count_tok TRParen then fail "C06" "unbalanced-parentheses-accepted" input [("tokens", x.o.(0))];
+  let cmps = opn Greater + opn Less + opn GreaterEq + opn LessEq in
+  chk "< >" (count_tok TGreater + count_tok TLess) cmps;
+  if df = "" then
+    chk ": =" (count_tok TColon + count_tok TEqual) (opn Equals + opn Like + opn In + opn Range + cmps + opn GreaterEq + opn LessEq);
+  if count_tok TErr > 0 then fail "C06" "text-with-a-lexical-error-accepted-as-a-query" input [("tokens", x.o.(0)); ("tree", show_expr e)];
   (* explicit AND tokens are a lower bound for AND nodes (juxtaposition adds more) *)
   if count_tok TAnd > opn And then fail "C06" "operator-tokens-vs-nodes:AND" input [("tree", show_expr e)]
+
+
+(* ---------- C03 / C04(c): query semantics vs SQL semantics on probe rows (Spec/QuerySem.v, Spec/SqlSem.v, extracted) ---------- *)
+let rv_show (v : rval) : string =
+  match v with
+  | RStr s -> "'" ^ string_of_chars s ^ "'"
+  | RNum q -> Printf.sprintf "%s/%s" (bits q.qnum) (bits (Zpos q.qden))
+
+(* the constants each field is compared with, and the wildcard patterns it is matched against *)
+let rec field_consts (e : expr) : (string * [ `C of rval | `P of string ]) list =
+  let f_of v = match field_of v with Some f -> Some (string_of_chars f) | None -> None in
+  let leaf f v = match v with
+    | VExp (E (VStr p, Wild, _, _, _)) -> if string_of_chars p = "*" then [] else [ (f, `P (string_of_chars p)) ]
+    | VExp lf -> (match leaf_const lf with Some c -> [ (f, `C c) ] | None -> [])
+    | _ -> [] in
+  match e with
+  | E (l, op, r, _, _) ->
+    (match op with
+     | And | Or -> (match l, r with VExp a, VExp b -> field_consts a @ field_consts b | _ -> [])
+     | Not | MustNot | Must -> (match l with VExp a -> field_consts a | _ -> [])
+     | Equals | Greater | Less | GreaterEq | LessEq | Like -> (match f_of l with Some f -> leaf f r | None -> [])
+     | In -> (match f_of l, r with Some f, VExp (E (VList lits, _, _, _, _)) -> List.concat_map (fun x -> leaf f (VExp x)) lits | _ -> [])
+     | Range -> (match f_of l, r with Some f, VBound (a, b, _) -> leaf f a @ leaf f b | _ -> [])
+     | _ -> [])
+
+let instantiate (p : string) (star : string) (q : string) : string =
+  let b = Buffer.create 16 in
+  String.iter (fun c -> if c = '*' then Buffer.add_string b star else if c = '?' then Buffer.add_string b q else Buffer.add_char b c) p;
+  Buffer.contents b
+
+let string_probes (consts : string list) (pats : string list) : string list =
+  let bump_last s = if s = "" then "a" else String.sub s 0 (String.length s - 1) ^ String.make 1 (Char.chr (min 255 (Char.code s.[String.length s - 1] + 1))) in
+  let from_const s = [ s; s ^ " "; s ^ "z"; bump_last s; (if s = "" then "" else String.sub s 0 (String.length s - 1)) ] in
+  let from_pat p = [ instantiate p "" "z"; instantiate p "xy" "z"; instantiate p "" ""; "q" ^ instantiate p "" "z"; instantiate p "x" "zz"; p;
+                     instantiate p "%" "_"; instantiate p "" "z" ^ "w" ] in
+  List.sort_uniq compare ("" :: "m" :: List.concat_map from_const consts @ List.concat_map from_pat pats)
+
+let mk_rows (e : expr) : ((string * rval) list list) option =
+  let fc = field_consts e in
+  let fields = List.sort_uniq compare (List.map fst fc) in
+  let per_field f =
+    let cs = List.filter_map (fun (g, x) -> if g = f then Some x else None) fc in
+    let nums = List.filter_map (function `C (RNum q) -> Some q | _ -> None) cs in
+    let strs = List.filter_map (function `C (RStr s) -> Some (string_of_chars s) | _ -> None) cs in
+    let pats = List.filter_map (function `P p -> Some p | _ -> None) cs in
+    if nums <> [] && (strs <> [] || pats <> []) then None       (* a field compared with both kinds: outside the quantifier *)
+    else if nums <> [] then Some (List.map (fun q -> (f, RNum q)) (num_probes nums))
+    else Some (List.map (fun s -> (f, RStr (chars_of_string s))) (string_probes strs pats)) in
+  let cols = List.map per_field fields in
+  if List.exists (fun c -> c = None) cols || fields = [] then None else begin
+    let cols = List.map (function Some c -> c | None -> []) cols in
+    (* cartesian product, capped: beyond the cap take a deterministic stride through the product *)
+    let total = List.fold_left (fun n c -> n * List.length c) 1 cols in
+    let cap = 300 in
+    let pick i = (* i-th row of the product *)
+      let rec go i cols = match cols with [] -> [] | c :: rest -> let k = List.length c in List.nth c (i mod k) :: go (i / k) rest in go i cols in
+    if total <= cap then Some (List.init total pick)
+    else Some (List.init cap (fun j -> pick ((j * 7919 + j / 3) mod total)))
+  end
+
+let row_of (l : (string * rval) list) : row = fun f -> List.assoc_opt (string_of_chars f) l
+let show_row l = String.concat ", " (List.map (fun (f, v) -> f ^ "=" ^ rv_show v) l)
+
+let rval_of_param (s : string) : rval option =   (* observer format: i<dec> f<bits> s<hex> *)
+  if s = "" then None else
+  match s.[0] with
+  | 'i' -> Some (RNum { qnum = z_of_int64 (Int64.of_string (String.sub s 1 (String.length s - 1))); qden = XH })
+  | 'f' -> (match q_of_float_bits (z_of_int64 (Int64.of_string (String.sub s 1 (String.length s - 1)))) with Some q -> Some (RNum q) | None -> None)
+  | 's' -> Some (RStr (unhex (String.sub s 1 (String.length s - 1))))
+  | _ -> None
+
+(* classes of the known findings of C03/C04, from the shape of the tree *)
+let sem_class (e : expr) : string =
+  let str_leaf v = match v with VExp (E (VStr _, Literal, _, _, _)) -> true | _ -> false in
+  let num_leaf v = match v with VExp (E ((VInt _ | VFloat _), Literal, _, _, _)) -> true | _ -> false in
+  let float_leaf v = match v with VExp (E (VFloat _, Literal, _, _, _)) -> true | _ -> false in
+  let star v = is_star v in
+  let has p = exists_node p e in
+  let qstar v = match v with VExp (E (VStr s, Literal, _, _, _)) -> string_of_chars s = "*" | _ -> false in
+  let comma v = match v with VExp (E (VStr s, Literal, _, _, _)) -> String.contains (string_of_chars s) ',' | _ -> false in
+  if has (fun n -> match n with E (VCol c, _, _, _, _) -> List.length c > 63 | _ -> false) then "K9"
+  else if has (fun n -> match n with E (_, Range, VBound (a, b, _), _, _) -> star a && star b | _ -> false) then "K4"
+  else if has (fun n -> match n with E (_, Range, VBound (a, b, _), _, _) -> comma a || comma b | _ -> false) then "K5"
+  else if has (fun n -> match n with E (_, Range, VBound (a, b, _), _, _) -> qstar a || qstar b | E (VStr s, Literal, _, _, _) -> string_of_chars s = "*" | _ -> false) then "K6"
+  else if has (fun n -> match n with E (_, Range, VBound (a, b, _), _, _) -> (star a && str_leaf b) || (str_leaf a && star b) | _ -> false) then "K2"
+  else if has (fun n -> match n with E (_, Range, VBound (a, b, false), _, _) -> (str_leaf a || str_leaf b) | _ -> false) then "K1"
+  else if has (fun n -> match n with E (_, Range, VBound (a, b, _), _, _) -> (float_leaf a || float_leaf b) || (num_leaf a && str_leaf b) || (str_leaf a && num_leaf b) | _ -> false) then "K3"
+  else if has (fun n -> match n with E (VStr p, Wild, _, _, _) -> List.exists (fun c -> String.contains (string_of_chars p) c) ['_'; '%'; '|'; '+'; '('; ')'; '['; ']'; '{'; '}'; '\\'] | _ -> false) then "K11"
+  else ""
+
+(* decimals Go represents exactly as written: the text %v prints denotes the same rational as the float64 *)
+let exact_floats (e : expr) : bool =
+  List.for_all (fun l -> match l with
+    | E (VFloat f, _, _, _, _) ->
+        (match q_of_float_bits f, q_of_decimal (orc2.fmt_v f) with
+         | Some a, Some b -> q_eq a b
+         | Some a, None -> (* negative: strip the sign *)
+             (match orc2.fmt_v f with '-' :: t -> (match q_of_decimal t with Some b -> q_eq a { qnum = (match b.qnum with Zpos p -> Zneg p | z -> z); qden = b.qden } | None -> false) | _ -> false)
+         | _ -> false)
+    | _ -> true) (leaves_e e)
+
+let check_semantics (x : qobs) input (e : expr) =
+  let o = x.o in
+  let renderable_text = List.for_all (fun l -> match l with
+      | E (VCol c, _, _, _, _) -> let s = string_of_chars c in s <> "" && not (String.contains s '"') && valid_utf8 s && not (String.contains s '\000')
+      | E (VStr c, _, _, _, _) -> let s = string_of_chars c in valid_utf8 s && not (String.contains s '\000')
+      | _ -> true) (leaves_e e) in
+  if not (exact_floats e) || not renderable_text then () else
+  match mk_rows e with
+  | None -> ()
+  | Some rows ->
+    (* inside the fragment? decided by the query semantics on the first row *)
+    (match rows with
+     | [] -> ()
+     | r0 :: _ ->
+       if qsem (row_of r0) e <> None then begin
+         checked "C03";
+         let cls = let c = sem_class e in if c = "" then [] else [ ("class", c) ] in
+         if is_bad o.(8) then () else
+         if eflag o.(8) <> "|0" then fail "C03" "ToPostgres-fails-on-a-query-of-the-fragment" input cls
+         else match xtext o.(8) with
+           | None -> ()
+           | Some sql ->
+             (match pg_read (chars_of_string sql) with
+              | None -> fail "C03" "SQL-not-readable-by-the-PostgreSQL-model" input ([ ("sql", sql) ] @ cls)
+              | Some a ->
+                nontrivial "C03";
+                let bad = ref None in
+                List.iter (fun r ->
+                  if !bad = None then begin
+                    let q = qsem (row_of r) e and s = ssem (row_of r) [] a in
+                    if q <> None && s <> q then bad := Some (r, q, s)
+                  end) rows;
+                bump ~by:(List.length rows) "c03.rows";
+                (match !bad with
+                 | Some (r, q, s) ->
+                   let sb = function Some true -> "true" | Some false -> "false" | None -> "not-evaluable" in
+                   fail "C03" "SQL-selects-different-rows-than-the-query" input
+                     ([ ("sql", sql); ("row", show_row r); ("query_says", sb q); ("sql_says", sb s) ] @ cls)
+                 | None -> ());
+                (* C04 (c): the parameterized SQL with its parameters bound is equivalent to the inline SQL *)
+                if not (is_bad o.(9)) && eflag o.(9) = "|0" then begin
+                  match xtext o.(9) with
+                  | Some psql ->
+                    let (numbered, _) = number_placeholders psql in
+                    let ps = List.filter_map rval_of_param (String.split_on_char ',' (params_of o.(9))) in
+                    (match pg_read (chars_of_string numbered) with
+                     | Some pa ->
+                       bump "c04.sem";
+                       let badp = ref None in
+                       List.iter (fun r ->
+                         if !badp = None then begin
+                           let si = ssem (row_of r) [] a and sp = ssem (row_of r) ps pa in
+                           if si <> sp then badp := Some (r, si, sp)
+                         end) rows;
+                       (match !badp with
+                        | Some (r, si, sp) ->
+                          let sb = function Some true -> "true" | Some false -> "false" | None -> "not-evaluable" in
+                          fail "C04" "parameterized-SQL-not-equivalent-to-inline-SQL" input
+                            ([ ("inline", sql); ("parameterized", psql); ("params", params_of o.(9)); ("row", show_row r); ("inline_says", sb si); ("parameterized_says", sb sp) ] @ cls)
+                        | None -> ())
+                     | None -> ())
+                  | None -> ()
+                end)
+       end)
 
 (* ---------------------------------------------------------------------------------------------------------- *)
 let check_single (x : qobs) input =
@@ -280,7 +450,7 @@ let check_single (x : qobs) input =
   (match tree with
    | Some t ->
        (match (try Some (parse_tree t) with Unmodelled _ -> None) with
-        | Some e -> check_params x input e; check_derivation x input e
+        | Some e -> check_params x input e; check_derivation x input e; check_semantics x input e
         | None -> ())
    | None -> ());
   let kcls = match tree with
@@ -391,12 +561,11 @@ let check_rel (x : qobs) input =
        | Some qs ->
            let t = parse_qt qs in
            checked "C05"; nontrivial "C05";
-           (* the generator's printer against the specification's printer: token types, and texts of terminals *)
-           let want_toks = List.map (fun (t : token) -> (typnum t.typ, if List.mem t.typ [TLiteral; TQuoted; TRegexp] then hex t.val0 else "")) (pr t) in
-           let got_toks = List.filter_map (fun s -> match String.split_on_char ':' s with
-             | [n; h] -> let n = int_of_string n in if n = teof_num then None else
-                 Some (n, (match toktype_of_int n with Some (TLiteral | TQuoted | TRegexp) -> h | _ -> "")) | _ -> None) (String.split_on_char ' ' x.o.(0)) in
-           if want_toks <> got_toks then record_mismatch "generator-printer-vs-spec-printer" (input @ [("lexed", x.o.(0))])
+           (* the generator's printer against the specification's printer, through the MODEL's lexer: token types, and texts of terminals *)
+           let proj (l : token list) = List.filter_map (fun (t : token) -> if t.typ = TEOF then None else
+             Some (typnum t.typ, if List.mem t.typ [TLiteral; TQuoted; TRegexp] then hex t.val0 else "")) l in
+           let model_toks = lex_tokens cls (chars_of_string x.q) in
+           if proj (pr t) <> proj model_toks then record_mismatch "generator-printer-vs-spec-printer" (input @ [("lexed", show_toks model_toks)])
            else begin
              let w = show_expr (want orc t) ^ "|0" in
              if x.o.(1) <> w && not (is_bad x.o.(1)) then fail "C05" "printed-tree-does-not-parse-back" input [("expected", w); ("observed", x.o.(1))]
@@ -410,6 +579,33 @@ let check_rel (x : qobs) input =
             | Some a -> Hashtbl.remove pending (rel ^ "/" ^ g); extra_case := a.line; check_pair rel a x; extra_case := ""
             | None -> ())
        | _ -> ())
+  | Some "C08c" ->
+      (match tag_get x.tag "w" with
+       | Some wh ->
+           let w = unhexs wh in
+           if valid_utf8 w && not (String.contains w '\000') && not (is_bad x.o.(1)) then begin
+             checked "C08"; nontrivial "C08";
+             let cls = if w = "*" then [("class", "K6")] else if String.contains w ',' then [("class", "K5")] else [] in
+             (match tree_of_parse x.o.(1) with
+              | None -> fail "C08" "quoted-value-in-context-rejected" input cls
+              | Some t ->
+                  let e = parse_tree t in
+                  if not (List.exists (fun l -> match l with E (VStr s, Literal, _, _, _) -> string_of_chars s = w | _ -> false) (leaves_e e)) then
+                    fail "C08" "quoted-value-not-verbatim-in-tree" input ([("tree", t)] @ cls);
+                  (if not (is_bad x.o.(8)) then
+                     if eflag x.o.(8) <> "|0" then fail "C08" "inline-rendering-fails" input cls
+                     else match xtext x.o.(8) with
+                       | Some sql ->
+                           (match pg_read (chars_of_string sql) with
+                            | Some a when List.mem w (sql_strs a) -> ()
+                            | _ -> fail "C08" "value-not-verbatim-in-inline-SQL" input ([("sql", sql)] @ cls))
+                       | None -> ());
+                  (if not (is_bad x.o.(9)) then
+                     if eflag x.o.(9) <> "|0" then fail "C08" "parameterized-rendering-fails" input cls
+                     else if not (List.mem ("s" ^ wh) (String.split_on_char ',' (params_of x.o.(9)))) then
+                       fail "C08" "value-not-verbatim-in-parameter-list" input ([("observed", x.o.(9))] @ cls)))
+           end
+       | None -> ())
   | Some "C08q" | Some "C08e" ->
       let quoting = tag_get x.tag "rel" = Some "C08q" in
       (match tag_get x.tag "f", tag_get x.tag "w" with
@@ -537,6 +733,7 @@ let check_d (q : string) (spec : string) (o : string array) input =
   else if mt <> o.(2) then record_mismatch "CustomRenderTrace" (input @ [("go", o.(2)); ("model", mt)]);
   (* property: post-order fold, every node once; a missing function anywhere makes Render fail with no text *)
   checked "C15"; nontrivial "C15";
+  if Array.length o > 3 && o.(3) <> "ok" then fail "C15" "drivers-share-state" input [("observed", o.(3))];
   if is_bad o.(1) then fail "C15" "custom-render-panics" input [("observed", o.(1))] else begin
     let rec post (e : expr) : int list = match e with E (l, op, r, _, _) -> postv l @ postv r @ [opnum op]
     and postv v = match v with VExp e -> post e | VList l -> List.concat_map post l | VBound (a, b, _) -> postv a @ postv b | _ -> [] in
